@@ -71,6 +71,14 @@ def run_history(R, obs, comp, module, src, hist, nvms, opt, label):
             continue
         # invoke
         ninv += 1
+        shared = None
+        if op == "invoke_shared":
+            # the global's current object itself is passed as the argument
+            shared = payload
+            obj = vm.GetGlobal(shared["global"])
+            payload = dict(shared["args"])
+            payload[shared["param"]] = sem.deep_copy(model.globals[shared["global"]])
+            R.count("invocations_with_an_argument_shared_with_a_global")
         try:
             model.steps = 0
             exp = model.call(name, payload)
@@ -81,7 +89,10 @@ def run_history(R, obs, comp, module, src, hist, nvms, opt, label):
         nslapi.set_observer(obs)
         try:
             try:
-                got = vm.Invoke(name, **{k: sem.deep_copy(x) for k, x in payload.items()})
+                passed = {k: sem.deep_copy(x) for k, x in payload.items()}
+                if shared is not None:
+                    passed[shared["param"]] = obj
+                got = vm.Invoke(name, **passed)
                 status = "ok"
             except vmobs.VerifStepLimit:
                 status = "nonterminating"
@@ -203,6 +214,10 @@ def replay(case):
                 vms[v].SetGlobal(name, payload)
             elif op == "get":
                 log.append((v, op, name, vms[v].GetGlobal(name)))
+            elif op == "invoke_shared":
+                a = dict(payload["args"])
+                a[payload["param"]] = vms[v].GetGlobal(payload["global"])
+                log.append((v, op, name, vms[v].Invoke(name, **a)))
             else:
                 log.append((v, op, name, vms[v].Invoke(name, **payload)))
         except Exception as e:
